@@ -353,6 +353,13 @@ func TestC09(t *testing.T) {
 			if g.chance(50, "ashape") {
 				c.A = &Node{K: KRoot, Next: appendChain(inner.Clone(), &Node{K: KIdx, Subs: []Sub{{From: &Node{K: KBin, S: "-", A: &Node{K: KLast}, B: &Node{K: KLast}}}}, Next: &Node{K: KMethod, S: "size"}})}
 			}
+			if g.chance(40, "existsA") {
+				// an index guarded by exists() over a path with its own subscript and a further step
+				other, _ := GenWalk(rt, d, 2, strict, "o")
+				step := []*Node{{K: KAnyArr}, {K: KKey, S: g.pick(defKeys[:3], "ok")}, {K: KMethod, S: "type"}}[g.n(3, "ostep")]
+				probe := &Node{K: KRoot, Next: appendChain(other, &Node{K: KIdx, Subs: []Sub{{From: &Node{K: KInt, I: 0}}}, Next: step})}
+				c.A = &Node{K: KInt, I: 0, Next: &Node{K: KFilter, A: &Node{K: KExists, A: probe}}}
+			}
 			c.B = []*Node{{K: KLast}, {K: KBin, S: "-", A: &Node{K: KLast}, B: &Node{K: KInt, I: 1}}, {K: KInt, I: 0}}[g.n(3, "b")]
 		default:
 			c.Kind = "root"
